@@ -91,11 +91,8 @@ def handle : Handler := fun kind a =>
         | some v => pure (okVals (if keep == 0 then "num" else fmtNats (arr.shape.map (fun _ => 1))) [v])
         | none => pure "ub"
       | some ax =>
-        let dim := arr.shape.length
-        let axn : Nat := if ax < 0 then (dim - (-ax).toNat) else ax.toNat
-        let outShape := if keep == 0 then arr.shape.eraseIdx axn else keepShape arr.shape axn
-        match simdReduceAxis N (List.zipWith f) f (identityOf opn) arr ax with
-        | some out => pure (okVals (fmtNats outShape) out)
+        match simdReduceAxisK N (List.zipWith f) f (identityOf opn) arr ax (keep != 0) with
+        | some (outShape, out) => pure (okVals (fmtNats outShape) out)
         | none => pure "ub"
   | "c12.matmul" => orBad do
       let N ← a.nat "lanes"
